@@ -1,6 +1,7 @@
 import Gv.Oracle.Common
 import Gv.Oracle.Det
 import Gv.Model.SW
+import Gv.Oracle.CliDefaults
 /-!
 Command-line glue of `goalign sw` (C09) against the aligner model: the two sequences of the input aligned with
 the penalties and scores given on the command line (`--gap-open` / `--gap-extend`, each on its own; `--match` /
@@ -37,11 +38,11 @@ def picture (r1 r2 : Seq) : Seq :=
 def expectedSW (rows : Rows) (fl : List String) : Option String := do
   match rows with
   | [(n1, s1), (n2, s2)] =>
-    -- the variable behind each flag starts from the value registered last (cmd/sw.go: −10 / −0.5 / 1 / −1)
-    let go ← half ((opt fl "--gap-open").getD "-10")
-    let ge ← half ((opt fl "--gap-extend").getD "-0.5")
-    let mt ← half ((opt fl "--match").getD "1")
-    let mm ← half ((opt fl "--mismatch").getD "-1")
+    -- the variable behind each flag starts from the value registered last (`Gen.CliFlags`)
+    let go ← half ((opt fl "--gap-open").getD (← CliDefaults.effective "swCmd" "gap-open"))
+    let ge ← half ((opt fl "--gap-extend").getD (← CliDefaults.effective "swCmd" "gap-extend"))
+    let mt ← half ((opt fl "--match").getD (← CliDefaults.effective "swCmd" "match"))
+    let mm ← half ((opt fl "--mismatch").getD (← CliDefaults.effective "swCmd" "mismatch"))
     let setScore := if (opt fl "--match").isSome || (opt fl "--mismatch").isSome then some (mt, mm) else none
     let a := configure 2 s1 s2 (some go) (some ge) setScore true
     if !DyadicScheme a s1.length s2.length then none else
